@@ -25,7 +25,7 @@ def jCell (sq : Bool) (t : Option Rat) (c : Cell) (e : Extra) : Json :=
   let rhs := t.map (fun t => if sq then t * t * c.s else t * c.s)
   let o := if sq then c.outlierSq t else c.outlierLin t
   jObj [("x", jRat c.x), ("lhs", jRat lhs), ("rhs", jOpt jRat rhs), ("repl", jRat c.repl),
-        ("d", jRat c.d), ("s", jRat c.s), ("rabs", jOpt jRat rabs), ("fexact", jBool e.fexact),
+        ("rabs", jOpt jRat rabs), ("fexact", jBool e.fexact),
         ("outlier", jBool o), ("out", jRat (if sq then c.outSq t else c.outLin t))]
 
 def jSpec (sq : Bool) (t : Option Rat) (s : SpecPx) (e : Extra) : Json :=
